@@ -32,6 +32,10 @@ def knownExtensions : List Bytes :=
   [sb "fileinto", sb "reject", sb "envelope", sb "body", sb "vacation", sb "vacation-seconds", sb "date",
    sb "relational", sb "regex", sb "copy", sb "mailbox", sb "imap4flags", sb "variables"]
 
+/-- extension names a table itself refers to (custom commands may bring their own) -/
+def tableExtensions (T : Table) : List Bytes :=
+  T.flatMap (fun d => d.extension.toList ++ d.args.flatMap (fun a => a.extension.toList ++ a.extValues.map (·.2)))
+
 def isStrTok (k : TokKind) : Bool := k == .string || k == .multiline
 
 /-- `string *("," string) "]"` after the opening bracket; returns the items and the rest -/
@@ -283,7 +287,8 @@ def command (T : Table) : Nat → List Bytes → Option Bytes → List Tok → V
               if d.special == .require then
                 let consumed := rest.take (rest.length - r1.length)
                 let names := requireNames consumed
-                let vk := if names.all (fun n => decide (n ∈ knownExtensions)) then Verdict.valid else .outside
+                let vk := if names.all (fun n => decide (n ∈ knownExtensions) || decide (n ∈ tableExtensions T))
+                          then Verdict.valid else .outside
                 (v.join vk, names.foldl (fun acc n => if decide (n ∈ acc) then acc else acc ++ [n]) loaded, some d.name, r2)
               else (v, loaded, some d.name, r2)
             else (.invalid, loaded, none, r1)
